@@ -24,11 +24,11 @@ var mixes = map[string][]mixEntry{
 }
 
 var counts = map[string][2]int{
-	"C01": {1500, 120000},
-	"C02": {1200, 80000},
-	"C03": {1000, 80000},
-	"C06": {1000, 80000},
-	"C07": {1200, 80000},
+	"C01": {1500, 60000},
+	"C02": {1200, 40000},
+	"C03": {1000, 40000},
+	"C06": {1000, 40000},
+	"C07": {1200, 40000},
 }
 
 func classFor(prop string, seed int64) string {
